@@ -78,6 +78,12 @@ def mutations(rng, tok, key, alg, pool, dense):
     yield ("protected without alg, header alg", dict(tok, protected=G.enc({}), header={"alg": alg}), None, key, False, None)
     yield ("unprotected alg conflicts", dict(tok, header={"alg": "none"}), None, key, False, None)
     yield ("protected as object", dict(tok, protected=prot), None, key, False, False)
+    # a protected header that is not text is not part of any signing input: whatever the signature was made over
+    # (in particular over an *empty* protected header, the algorithm sitting in the unprotected one), it must be refused
+    for v in ({"alg": alg, "kid": "root-key", "admin": True}, {}, {"alg": alg}, [], 5, True, None):
+        yield ("protected replaced by %s" % json.dumps(v), dict(tok, protected=v), None, key, False, False)
+        yield ("protected %s in a general-form entry" % json.dumps(v),
+               {"payload": tok.get("payload"), "signatures": [dict({k: x for k, x in tok.items() if k != "payload"}, protected=v)]}, None, key, False, False)
     yield ("protected bad b64", dict(tok, protected="!!!"), None, key, False, False)
     yield ("protected not json", dict(tok, protected=G.b64u(b"nope")), None, key, False, False)
     yield ("protected absent", {k: v for k, v in tok.items() if k != "protected"}, None, key, False, None)
@@ -142,6 +148,11 @@ def run(ctx):
             for pay in (b"", b"payload \x00\xff" + rng.randbytes(20)):
                 sig_ops.append(("jws.sig", {"jws": {"payload": G.b64u(pay)}, "sig": {"protected": {"alg": alg, "kid": name}}, "jwk": key,
                                             "rnd": [rng.randbytes(32).hex()], "_expect_ok": True, "_alg": alg, "_name": name}))
+    # tokens whose protected header is empty / absent: the algorithm is named by the unprotected header or the key
+    for name, alg in (("oct-32", "HS256"), ("EC-P256", "ES256"), ("RSA-2048", "RS256"), ("oct-64", "HS512")):
+        for tmpl in ({"header": {"alg": alg}}, {"header": {"alg": alg, "kid": name}, "protected": {}}):
+            sig_ops.append(("jws.sig", {"jws": {"payload": G.b64u(b"unprotected alg")}, "sig": tmpl, "jwk": pool[name],
+                                        "rnd": [rng.randbytes(32).hex()], "_expect_ok": True, "_alg": alg, "_name": name}))
     real, model = compare(ctx, sig_ops, lambda *a: None)
     base = []
     for (op, a), r, m in zip(sig_ops, real, model):
